@@ -25,6 +25,31 @@ def kRegion (S : Schema) (D : Frame) : Bool :=
           | none => false)
       | none => false)
 
+/-- out of the model's scope: an ordering / string check applied to a column of another kind whose
+values are all null (or that is empty).  pandas raises for the column as a whole (typed array vs.
+scalar of another kind, `.str` on a non-string column); the element-wise model sees no element. -/
+def numericD (d : DType) : Bool := d == .int64 || d == .float64
+
+def checkRaisesOnColumn (b : Builtin) (phys : DType) : Bool :=
+  let cmp := fun (v : Val) => match v.kind? with
+    | some k => !(k == phys || (numericD k && numericD phys))
+    | none => false
+  match b with
+  | .gt v | .ge v | .lt v | .le v => cmp v
+  | .inRange lo hi _ _ => cmp lo || cmp hi
+  | .strMatches _ | .strContains _ | .strStartswith _ | .strEndswith _ | .strLength _ _ => phys != .str
+  | _ => false
+
+def illTypedVacuous (S : Schema) (D : Frame) : Bool :=
+  S.columns.any (fun spec => (targets spec D).any (fun n =>
+    match D.col? n with
+    | some c => c.vals.all Val.isNull && c.dtype != .str && spec.checks.any (fun ck => checkRaisesOnColumn ck.b c.dtype)
+    | none => false))
+  || (match S.index with
+      | some ix => D.index.any (fun l => l.vals.all Val.isNull && l.dtype != .str
+          && ix.checks.any (fun ck => checkRaisesOnColumn ck.b l.dtype))
+      | none => false)
+
 def answer (j : Json) : Except String Json := do
   match j.getObjVal? "mode" with
   | .ok (.str "builtin") =>
@@ -40,7 +65,8 @@ def answer (j : Json) : Except String Json := do
       ("errors", toJson errs),
       ("accepts", toJson errs.isEmpty),
       ("sat", toJson (decide (Spec.Sat c.schema c.frame))),
-      ("inK", toJson (kRegion c.schema c.frame))]
+      ("inK", toJson (kRegion c.schema c.frame)),
+      ("outOfScope", toJson (illTypedVacuous c.schema c.frame))]
 
 def main : IO Unit := do
   lineLoop (← IO.getStdin) (← IO.getStdout) answer
